@@ -416,6 +416,21 @@ class Explorer(object):
                 return ('c', _norm(r, w))
         if op == 'and' and (b == C0 or a == C0):
             return C0
+        if op == 'and' and is_const(a) and not is_const(b):
+            a, b = b, a
+        if op == 'or' and is_const(a) and not is_const(b):
+            a, b = b, a
+        if op == 'and' and is_const(b) and a[0] == 'bin' and is_const(a[3]):
+            m = b[1]
+            if a[1] == 'or':
+                if a[3][1] & m == 0:
+                    return self._bin('and', a[2], b, w)        # (x | c) & m == x & m  when c & m == 0
+                if a[3][1] & m == m:
+                    return ('c', _norm(m, w))                  # all tested bits are set
+            elif a[1] == 'and':
+                return self._bin('and', a[2], ('c', _norm(a[3][1] & m, w)), w)
+        if op == 'or' and is_const(b) and a[0] == 'bin' and a[1] == 'or' and is_const(a[3]):
+            return self._bin('or', a[2], ('c', _norm(a[3][1] | b[1], w)), w)
         if op in ('add', 'or', 'sub') and b == C0:
             return a
         if op == 'add' and is_const(b) and a[0] == 'bin' and a[1] == 'add' and is_const(a[3]):
